@@ -37,7 +37,11 @@ try:
         conf['tests'] = {'failed': int(m.group(1)) if m else None, 'passed': int(m.group(2)) if m else None,
                          'failed_outside_baseline': [f for f in failed if not ('registration' in f or 'subcommands' in f)]}
     t0 = time.time()
+    evf = '/verif/evidence/%s.json' % prop
+    saved = open(evf).read() if os.path.exists(evf) else None
     c = sh('cd /verif && VERIF_TIER=%s ./check %s --tier %s' % (tier, prop, tier))
+    if saved is not None:      # evidence of a run on a patched tree must not be kept
+        open(evf, 'w').write(saved)
     viol = re.findall(r'^VIOLATION .*', c.stdout, re.M)
     conf['check'] = {'cmd': './check %s --tier %s' % (prop, tier), 'exit': c.returncode, 'violation_lines': len(viol),
                      'first': (viol[0] if viol else ''), 'wall_s': round(time.time() - t0, 1),
